@@ -171,6 +171,15 @@ static Reg r_xkr("tmxkr", [](const Args& A) {
   emit(hx(lat) + " " + hx(lon) + " " + hx(g) + " " + hx(k));
 });
 
+// tmtau es tau : Math::taupf and Math::tauf (conformal-latitude maps used by both classes; es < 0 encodes a prolate ellipsoid)
+static Reg r_tau("tmtau", [](const Args& A) {
+  double es = unhx(A[0]), tau = unhx(A[1]); double tp = Math::taupf(tau, es), tb = Math::tauf(tp, es);
+  emit(hx(tp) + " " + hx(tb));
+  // tauf inverts taupf (relative accuracy in tau, all the way to the poles)
+  if (std::isfinite(tau) && !(std::fabs(tb - tau) <= 8 * 2.220446049250313e-16 * std::fabs(tau))) bad("tauf-of-taupf", "tauf(taupf(tau)) = " + std::to_string(tb) + " for tau = " + std::to_string(tau) + " es = " + std::to_string(es));
+  if (std::isfinite(tau) && tau != 0 && !((tp > 0) == (tau > 0))) bad("taupf-sign", "taupf does not keep the sign of tau");
+});
+
 // strata for the exact-form ops
 inline void generate(Rng& r, long i, double f) {
   TX t(1.0, f, 1.0); double e = t._e, Ku = t._eEu.K(), Eu = t._eEu.E(), Kv = t._eEv.K(), KEv = t._eEv.KE();
